@@ -160,6 +160,33 @@ def r17_4(ck, F):
               f"ReadLock.cache is {c}", None)
 
 
+def r17_5(ck, F):
+    ck.rule("R17.5", "check-then-wait on the invalidation flag: the cache monitor task spawned by ReadLock::fetch and "
+            "ReadGuard::invalidated read the current flag (borrow / borrow_and_update) before their first "
+            "changed().await, and re-read it after every wake",
+            "a Value that reaches a remote reader with the flag already set: a monitor that waits first never wakes, the "
+            "stale Value stays cached, the owner never finishes its write branch and every later request hangs", floor=2)
+    cands = []
+    for x in F.family(FETCH):
+        if x.kind == "coroutine" and any((a.get("fut_fn") or "").endswith("Receiver::changed::{closure#0}") or
+                                         "watch" in (a.get("fut_fn") or "") and "changed" in (a.get("fut_fn") or "")
+                                         for a in x.awaits()) and x is not F.main_body(FETCH):
+            cands.append(("fetch#monitor", x))
+    cands.append(("ReadGuard::invalidated", F.main_body("robj::rw_lock::rw_lock::ReadGuard::invalidated")))
+    for name, x in cands:
+        waits = [a for a in x.awaits() if "changed" in (a.get("fut_fn") or "")]
+        checks = [bb for bb, t in x.calls() if (callee(t) or "").endswith(("Receiver::borrow_and_update", "Receiver::borrow"))]
+        ok = bool(waits) and bool(checks)
+        if ok:
+            first = waits[0]
+            p = x.find_path([0], [first["poll_bb"]], avoid=checks)
+            again = all(any(c in x.reach([w["ready_bb"]]) for c in checks) for w in waits if w.get("ready_bb") is not None)
+            ok = p is None and again
+        ck.expect(ok, name, "the flag is read before the first wait and after each wake",
+                  f"{name} can wait for a change without having looked at the current flag", x.loc(0))
+    ck.expect(len(cands) >= 2, "check-then-wait#sites", f"{len(cands)} sites", "monitor task not found", None)
+
+
 def run(ck, F):
-    for r in (r17_1, r17_2, r17_3, r17_4):
+    for r in (r17_1, r17_2, r17_3, r17_4, r17_5):
         ck.run_rule(r)
